@@ -112,7 +112,7 @@ bool run_ext(Ctx &C, const std::string &cmd, Toks &T, long seq) {
   if (cmd == "csys") {
     bind(C); bool feas = false; if (T.t[T.i] == "feas") { T.str(); feas = true; }
     VectorNd q = T.vec(), qd = T.vec(), tau = T.vec();
-    if (feas) qd = project(C, q, qd); std::vector<SpatialVector> *fe = C.fext(T); ConstraintSet &cs = E(C).cs;
+    if (feas) { qd = project(C, q, qd); out.line(seq, "qd_feas", qd); } std::vector<SpatialVector> *fe = C.fext(T); ConstraintSet &cs = E(C).cs;
     CalcConstrainedSystemVariables(m, q, qd, tau, cs, true, fe);
     out.begin(seq, "H"); out.mat(cs.H); out.end(); out.line(seq, "C", cs.C);
     out.begin(seq, "G"); out.mat(cs.G); out.end(); out.line(seq, "gamma", cs.gamma);
@@ -121,7 +121,7 @@ bool run_ext(Ctx &C, const std::string &cmd, Toks &T, long seq) {
   if (cmd == "fdc") {
     bind(C); std::string meth = T.str(); bool feas = false; if (T.t[T.i] == "feas") { T.str(); feas = true; }
     VectorNd q = T.vec(), qd = T.vec(), tau = T.vec(); std::vector<SpatialVector> *fe = C.fext(T);
-    if (feas) qd = project(C, q, qd);
+    if (feas) { qd = project(C, q, qd); out.line(seq, "qd_feas", qd); }   // the model uses this very velocity
     ConstraintSet &cs = E(C).cs; VectorNd qdd = VectorNd::Zero(m.qdot_size);
     if (meth == "direct") ForwardDynamicsConstraintsDirect(m, q, qd, tau, cs, qdd, true, fe);
     else if (meth == "range") ForwardDynamicsConstraintsRangeSpaceSparse(m, q, qd, tau, cs, qdd, true, fe);
@@ -137,7 +137,7 @@ bool run_ext(Ctx &C, const std::string &cmd, Toks &T, long seq) {
     bind(C); std::string meth = T.str(); bool feas = false, feasacc = false;
     while (T.t[T.i] == "feas" || T.t[T.i] == "feasacc") { if (T.str() == "feas") feas = true; else feasacc = true; }
     VectorNd q = T.vec(), qd = T.vec(), qdes = T.vec(); std::vector<SpatialVector> *fe = C.fext(T);
-    if (feas) qd = project(C, q, qd);
+    if (feas) { qd = project(C, q, qd); out.line(seq, "qd_feas", qd); }   // the model uses this very velocity
     ConstraintSet &cs = E(C).cs;
     if (feasacc) {   // a desired acceleration consistent with the constraints: qdes - G^T (G G^T)^+ (G qdes - gamma)
       CalcConstrainedSystemVariables(m, q, qd, VectorNd::Zero(m.qdot_size), cs, true, fe);
